@@ -91,8 +91,9 @@ func ckiName(i int) string {
 type cfg struct{ ver, mod, exp, pr, gd, ll, cr, us, so, ck, mt int }
 
 // modTops: the most significant modulus byte — top bit set (what rsa.GenerateKey yields), clear (a modulus a few
-// bits shorter than KeySize = 8*len, which Size()*8 still reports), and 0x01.
-var modTops = []byte{0x81, 0x7F, 0x01}
+// bits shorter than KeySize = 8*len, which Size()*8 still reports), 0x01, and 0x00 (a fixed-width big-endian
+// field may start with zero bytes - e.g. the sign octet an ASN.1 INTEGER carries; they are part of the field).
+var modTops = []byte{0x81, 0x7F, 0x01, 0x00}
 
 func (f cfg) String() string {
 	return fmt.Sprintf("version=0x%x modulus=%dB(first byte %02x) exponent=%d primes=(%d,%d)B deviceId=%s lastLogonTicks=%d creationTicks=%d usage=%d source=%d customKeyInfo=%x",
